@@ -224,7 +224,8 @@ def zone_table(ctx):
     (the extraction runs the real build; OUT_DIR/timezones.rs holds `Tz::X => "Area/City"` for every zone)"""
     from vlib import extract
 
-    cands = sorted(glob.glob(os.path.join(extract.CACHE, "target-*", "debug", "build", "chrono-tz-*", "out", "timezones.rs")), key=os.path.getmtime)
+    snap = os.path.join(getattr(ctx, "facts_dir", "") or "", "timezones.rs")
+    cands = [snap] if os.path.exists(snap) else sorted(glob.glob(os.path.join(extract.CACHE, "target-*", "debug", "build", "chrono-tz-*", "out", "timezones.rs")), key=os.path.getmtime)
     if not cands:
         return None, None
     txt = open(cands[-1], encoding="utf-8").read()
